@@ -4,7 +4,7 @@ import os
 import re
 
 from vlib import mirutil
-from vlib.facts import walk, peel, place_path, pat_variants, pat_alternatives, CheckError, REPO, uncond_before, sp_before
+from vlib.facts import walk, peel, place_path, pat_variants, pat_alternatives, CheckError, REPO, uncond_before, sp_before, conditional_ancestors
 from vlib.report import RuleResult
 from rules.nopanic import snippet
 
@@ -833,3 +833,136 @@ def _is_assign_target(root, node):
         if c.get("k") == "Assign" and peel(c["lhs"]) is node:
             return True
     return False
+
+
+# ---------------------------------------------------------------- R-MAPPER-UNCOND
+MAPPERS_CALL = ("fix_op_id_mapping", "update_fn_instr", "update_global_instr", "update_memory_instr", "update_ids_and_encode")
+MAPPERS_METHOD = ("fix_id_mapping",)
+
+
+def mapper_uncond(F):
+    """Whether an index is remapped may depend on WHAT is being emitted (section empty, entity deleted, kind, instrumentation
+    present) but never on the maps themselves or on the recalculate flags: 'nothing moved in space A' says nothing about
+    spaces B and C, and the three maps are recomputed independently."""
+    r = RuleResult("R-MAPPER-UNCOND",
+                   "no call that applies the old→new maps (fix_op_id_mapping, InitInstr::fix_id_mapping, update_*_instr) is guarded by a condition computed from a map or from a recalculate_ids flag (a shortcut 'ids did not move' looking at one index space skips the remapping of the other two)")
+    n = 0
+    for fn in F.fns:
+        if fn.get("body") is None:
+            continue
+        sites = []
+        for c in walk(fn["body"]):
+            if c.get("k") == "Call" and (c.get("callee") or "").split("::")[-1] in MAPPERS_CALL:
+                sites.append(c)
+            if c.get("k") == "MethodCall" and c["method"] in MAPPERS_METHOD:
+                sites.append(c)
+        if not sites:
+            continue
+        r.analysed.append(fn["path"])
+
+        def base_taint(e):
+            for x in walk(e):
+                if x.get("k") == "Field" and x["name"] == "recalculate_ids":
+                    return "a recalculate_ids flag"
+                if x.get("k") == "Path" and _is_u32_map(x.get("ty")):
+                    return "the map `%s`" % x.get("res", {}).get("name", "?")
+                if x.get("k") == "MethodCall" and _is_u32_map(x.get("recv_ty")):
+                    return "a map"
+            return None
+
+        taint = {}
+        changed = True
+        while changed:
+            changed = False
+            for st in walk(fn["body"]):
+                if st.get("k") == "Let" and st["pat"].get("k") == "Binding" and "init" in st and st["pat"]["hid"] not in taint:
+                    if _is_u32_map(st["pat"].get("ty")):
+                        continue  # the map itself is not a condition
+                    t = base_taint(st["init"])
+                    if t is None:
+                        for x in walk(st["init"]):
+                            if x.get("k") == "Path" and x.get("res", {}).get("hid") in taint:
+                                t = taint[x["res"]["hid"]]
+                    if t is not None and (st["pat"].get("ty") in ("bool",) or "Option" in (st["pat"].get("ty") or "") or st["pat"].get("ty") in ("usize", "u32")):
+                        taint[st["pat"]["hid"]] = t + " (via `%s`)" % st["pat"]["name"]
+                        changed = True
+        for c in sites:
+            n += 1
+            bad = None
+            for anc in conditional_ancestors(fn["body"], c) or []:
+                cond = anc.get("cond") if anc.get("k") == "If" else (anc.get("scrut") if anc.get("k") == "Match" else None)
+                if cond is None:
+                    continue
+                t = None
+                for x in walk(cond):
+                    if x.get("k") == "Path" and x.get("res", {}).get("hid") in taint:
+                        t = taint[x["res"]["hid"]]
+                if t is None and not (cond.get("k") == "Call" and (cond.get("callee") or "").split("::")[-1].startswith("refers_to_")):
+                    bt = base_taint(cond)
+                    # `match map.get(k)` / `if let Some(..) = map.get(k)` is the lookup itself, not a guard
+                    if bt and not any(x.get("k") == "MethodCall" and x["method"] == "get" for x in walk(cond)):
+                        t = bt
+                if t:
+                    bad = (anc, t)
+            ok = bad is None
+            r.ob(ok, {"fn": fn["path"], "mapper_call_line": c["sp"][0], "guarded_by_map_or_flag": not ok})
+            if not ok:
+                r.violate("%s | guarded mapper" % fn["path"], F.loc(fn, c),
+                          "the remapping call at line %d runs only if a condition derived from %s holds: indices of the other index spaces (and of this one, when the flag is stale) are then emitted unmapped" % (c["sp"][0], bad[1]))
+    r.count("mapper_calls", n)
+    return r
+
+
+# ---------------------------------------------------------------- R-FULL-ITER
+TRUNC = ("take", "skip", "step_by", "take_while", "skip_while", "rev", "nth", "last")
+FILTERS = ("filter", "filter_map", "skip", "skip_while", "take_while", "step_by", "flat_map", "flatten")
+
+
+def full_iter(F):
+    """Zero-expected rule over the whole crate: the IR's vectors are walked completely and in order wherever they are
+    emitted, reported or turned into iterator metadata.  (a) no truncating/reordering adaptor (take/skip/step_by/
+    take_while/skip_while/rev/nth/last) on an iterator over IR state; (b) `enumerate()` is never applied after a filtering
+    adaptor when its index is used as a position/id (the index then counts only the survivors)."""
+    r = RuleResult("R-FULL-ITER",
+                   "no iterator over IR state is truncated or reordered (take/skip/step_by/take_while/skip_while/rev/nth/last), and no enumerate() follows a filtering adaptor: every element is visited once, in order, and enumerate indices are positions")
+    n_chains = 0
+    for fn in F.fns:
+        if fn.get("body") is None or (fn.get("impl_trait") or "").startswith(("std::", "core::")):
+            continue
+        for c in walk(fn["body"]):
+            if not (c.get("k") == "MethodCall" and ("iter::Iterator::" in (c.get("callee") or "") or "iter::traits" in (c.get("callee") or ""))):
+                continue
+            # collect the adaptor chain below c
+            chain = []
+            cur = c
+            while isinstance(cur, dict) and cur.get("k") == "MethodCall":
+                chain.append(cur["method"])
+                cur = peel(cur["recv"])
+            chain.reverse()
+            # only judge the outermost call of a chain once
+            n_chains += 1
+            m = c["method"]
+            over_ir = "ir::" in (c.get("ty") or "") or "wasmparser::Operator" in (c.get("ty") or "")
+            if not over_ir:
+                continue
+            if m in TRUNC:
+                # rooted at IR state? (self.* / a parameter / a local that is not a fresh range)
+                root = cur
+                while isinstance(root, dict) and root.get("k") in ("Field", "Index", "Unary", "AddrOf"):
+                    root = peel(root.get("base") or root.get("a"))
+                is_range = isinstance(root, dict) and root.get("k") == "Struct" and "ops::Range" in (root.get("adt") or "")
+                if is_range:
+                    continue
+                r.ob(False, {"fn": fn["path"], "chain": ".".join(chain)})
+                r.violate("%s | %s" % (fn["path"], ".".join(chain)), F.loc(fn, c),
+                          "iterator chain `.%s()` truncates or reorders a walk over IR state: elements outside the window are silently not visited/emitted/reported" % ".".join(chain))
+            if m == "enumerate":
+                before = chain[:-1]
+                bad = [a for a in before if a in FILTERS]
+                if bad:
+                    r.ob(False, {"fn": fn["path"], "chain": ".".join(chain)})
+                    r.violate("%s | %s" % (fn["path"], ".".join(chain)), F.loc(fn, c),
+                              "enumerate() is applied after `%s`: its index counts only the surviving elements, not positions in the collection (ids/indices derived from it shift as soon as one element is filtered out)" % bad[0])
+    r.ob(True, {"iterator_adaptor_calls_scanned": n_chains})
+    r.count("iterator_calls_scanned", n_chains)
+    return r
